@@ -9,10 +9,13 @@
 package main
 
 import (
+	"bytes"
 	"fmt"
 	"net"
 	"os"
 	"runtime"
+	"runtime/pprof"
+	"sort"
 	"strconv"
 	"strings"
 	"sync"
@@ -89,7 +92,13 @@ type conductor struct {
 	cur      *mpool
 	owner    map[int]*mpool
 	lastID   int
-	closed   bool // Session.Close was called
+	closed   bool // Session.Close was called (and has returned)
+	closing  bool // Session.Close is held between policyConnPool.Close() and s.cancel() (shold … sfin)
+	heldDeb  *gocql.VerifDebouncer
+	closeRet chan struct{}
+	lateAdd  int   // addHost calls that created a pool inside that window (the excluded class, KF-C17-3)
+	hostConns int  // open sockets of the host at the drained quiescent point of a degraded scenario
+	violated bool  // a monitor has already seen a definite violation: the remaining waits are short
 	degraded bool
 	adopted  bool // connects nobody predicted were adopted
 
@@ -460,7 +469,7 @@ func (c *conductor) act(a string) bool {
 		if c.cur == nil {
 			return false
 		}
-		burstPicks(c.cur.h)
+		burstPicks(c, c.cur.h)
 		c.trigger(c.cur)
 		c.fillBarrier() // every one of the started fill() calls has decided
 	case "down":
@@ -487,29 +496,70 @@ func (c *conductor) act(a string) bool {
 		conns := p.h.NetConns()
 		p.h.Close()
 		c.waitPoolClosed(p, conns)
-	case "up":
-		done := make(chan struct{})
-		go func() { gocql.VerifAddHost(c.s, c.host); close(done) }()
-		if c.cur != nil && !c.willFill(c.cur) {
-			// addHost finds the registered pool and its fill() returns at once
-			c.waitFor("addHost returns", func() bool {
-				select {
-				case <-done:
-					return true
-				default:
-					return false
-				}
-			})
+	case "up", "ups", "upp":
+		if c.closed {
+			return false
 		}
-		if c.cur == nil {
+		n := 1
+		if kind != "up" {
+			if id < 2 || id > 4 {
+				return false
+			}
+			n = id
+		}
+		wasNil := c.cur == nil
+		var doneCnt int64
+		c.concurrentAdd(n, kind == "upp", &doneCnt)
+		// how many of the callers return at once: all, except the one whose fill() dials the first connection of an
+		// empty pool synchronously
+		want := n
+		if wasNil || func() bool { cn, _, cl, _ := c.cur.h.State(); return c.willFill(c.cur) && cn == 0 && !cl }() {
+			want = n - 1
+		}
+		if wasNil {
 			var h *gocql.VerifHostPool
 			c.waitFor("pool of the added host registered", func() bool { h = gocql.VerifHostPools(c.s)[c.ip.String()]; return h != nil })
 			if h == nil {
 				return true
 			}
 			c.cur = c.addPool(h)
+			if c.closing {
+				c.lateAdd++
+			}
 		}
 		c.trigger(c.cur)
+		c.waitFor(fmt.Sprintf("%d of %d addHost callers returned", want, n), func() bool {
+			return int(atomic.LoadInt64(&doneCnt)) >= want || c.g.maxID() > c.lastID
+		})
+		if n > 1 {
+			c.fillBarrier()
+		}
+	case "shold":
+		if c.closed || c.closing {
+			return false
+		}
+		c.heldDeb = gocql.VerifSessionRingRefresher(c.s)
+		c.heldDeb.Lock()
+		c.closeRet = make(chan struct{})
+		go func() { c.s.Close(); close(c.closeRet) }()
+		p := c.cur
+		var conns []net.Conn
+		if p != nil {
+			conns = p.h.NetConns()
+		}
+		c.cur = nil
+		c.closing = true
+		c.waitFor("Session.Close has closed the pools and stands at the ring refresher's stop()", profiled(func() bool {
+			return gocql.VerifPoolCount(c.s) == 0 && labelledIn(c.label, ".(*refreshDebouncer).stop") == 1
+		}))
+		if p != nil {
+			c.waitPoolClosed(p, conns)
+		}
+	case "sfin":
+		if !c.closing || c.closed {
+			return false
+		}
+		c.sessionClose()
 	case "sclose":
 		c.sessionClose()
 	default:
@@ -539,8 +589,14 @@ func (c *conductor) sessionClose() {
 		return
 	}
 	c.closed = true
-	done := make(chan struct{})
-	go func() { c.s.Close(); close(done) }()
+	done := c.closeRet
+	if c.closing {
+		c.heldDeb.Unlock() // Session.Close goes on: ringRefresher.stop(), s.cancel()
+	} else {
+		done = make(chan struct{})
+		go func(done chan struct{}) { c.s.Close(); close(done) }(done)
+		c.cur = nil
+	}
 	returned := false
 	c.waitFor("Session.Close returns", func() bool {
 		select {
@@ -550,7 +606,6 @@ func (c *conductor) sessionClose() {
 		}
 		return returned
 	})
-	c.cur = nil
 	c.g.releaseAllDials()
 	ids := c.inflight()
 	c.waitFor("sockets of aborted attempts closed", func() bool {
@@ -571,6 +626,73 @@ func (c *conductor) sessionClose() {
 	for _, p := range c.pools {
 		c.settle(p)
 	}
+}
+
+// concurrentAdd: n callers of the session's entry points that end in policyConnPool.addHost (ring refresh:
+// addHostIfMissing + startPoolFill; reconnect ticker: pool.addHost; UP event / control connection: startPoolFill) at
+// once. park = false: released from a spin barrier. park = true: the interleaving is pinned with the locks addHost
+// itself takes — all callers are parked in front of the pool map's mutex, then (whoever is past the lookup) on the
+// HostInfo mutex (HostInfo.Port() inside newHostConnPool's argument list), then let go.
+func (c *conductor) concurrentAdd(n int, park bool, doneCnt *int64) {
+	call := func(k int) {
+		switch k % 3 {
+		case 0:
+			gocql.VerifAddHost(c.s, c.host)
+		case 1:
+			gocql.VerifPoolAddHost(c.s, c.host)
+		default:
+			gocql.VerifStartPoolFill(c.s, c.host)
+		}
+		atomic.AddInt64(doneCnt, 1)
+	}
+	if n == 1 {
+		go call(0)
+		return
+	}
+	if !park {
+		var flag int32
+		var ready sync.WaitGroup
+		for k := 0; k < n; k++ {
+			ready.Add(1)
+			go func(k int) {
+				ready.Done()
+				for i := 0; atomic.LoadInt32(&flag) == 0; i++ {
+					if i&0xfffff == 0xfffff {
+						runtime.Gosched()
+					}
+				}
+				call(k)
+			}(k)
+		}
+		ready.Wait()
+		atomic.StoreInt32(&flag, 1)
+		return
+	}
+	gocql.VerifPoolMapLock(c.s)
+	for k := 0; k < n; k++ {
+		go call(k)
+	}
+	c.waitFor("addHost callers parked on the pool map", profiled(func() bool {
+		return labelledBoth(c.label, ".(*policyConnPool).", "sync.(*RWMutex)") == n
+	}))
+	gocql.VerifHostInfoLock(c.host)
+	gocql.VerifPoolMapUnlock(c.s)
+	// a stable picture (three equal snapshots): every caller is parked on the HostInfo, on the pool map behind the
+	// caller that holds it, or has returned
+	last, same := "", 0
+	c.waitFor("addHost callers parked again", profiled(func() bool {
+		sig := callerSignature(c.label)
+		if sig == last {
+			same++
+		} else {
+			last, same = sig, 0
+		}
+		// … and somebody got past the pool map: a caller stands at the HostInfo (inside newHostConnPool's arguments,
+		// or in policy.AddHost after its addHost returned) or has returned — of two or more callers at most one can be
+		// held in the synchronous dial of a fill instead
+		return same >= 2 && (int(atomic.LoadInt64(doneCnt)) > 0 || labelledBoth(c.label, ".(*HostInfo).", "sync.(*RWMutex)") > 0)
+	}))
+	gocql.VerifHostInfoUnlock(c.host)
 }
 
 func splitAct(a string) (string, int) {
@@ -657,7 +779,10 @@ func runPipeLabelled(label string, cfg pipeCfg, fixed []string, choose chooser, 
 		if a == "" {
 			a = "sclose"
 		}
-		if a == "sclose" && c.adopted && !drained {
+		if a == "sclose" && c.closing {
+			a = "sfin"
+		}
+		if (a == "sclose" || a == "shold" || a == "sfin") && c.adopted && !drained {
 			// surplus connects were adopted: before the session is closed every connect in flight is answered
 			// step by step until it is over, so that the monitors see what the surplus does to the pool
 			drained = true
@@ -676,6 +801,16 @@ func runPipeLabelled(label string, cfg pipeCfg, fixed []string, choose chooser, 
 				}
 				if !progressed {
 					break
+				}
+			}
+			// the bound per HOST, across all pool objects: with nothing held at the peer and no connect() running,
+			// every open socket of the host is an established connection of some pool object of the session
+			if c.waitFor("no connect() in progress after the drain", profiled(func() bool {
+				return len(c.g.heldIDs()) == 0 && labelledIn(c.label, ".(*hostConnPool).connect") == 0
+			})) {
+				c.hostConns = c.openSockets()
+				if c.hostConns > cfg.size {
+					c.violated = true
 				}
 			}
 		}
@@ -699,14 +834,34 @@ func runPipeLabelled(label string, cfg pipeCfg, fixed []string, choose chooser, 
 	// whatever happened: leave nothing held, close the session, then the final monitors
 	c.sessionClose()
 	c.g.releaseAllDials()
-	after := 0
-	patient(wd(), func() bool { after = c.openSockets(); return after == 0 })
+	wdEnd := wd()
+	if c.violated {
+		wdEnd = time.Second // a definite violation was already seen: what follows is only recorded
+	}
+	// a pool registered by an addHost inside Session.Close (excluded class): its connections are counted apart
+	lateOpen := func() int {
+		if c.lateAdd == 0 || c.cur == nil {
+			return 0
+		}
+		n := 0
+		for _, nc := range c.cur.h.NetConns() {
+			if !nc.(*memcluster.ClientConn).IsClosed() {
+				n++
+			}
+		}
+		return n
+	}
+	after, late := 0, 0
+	patient(wdEnd, func() bool { late = lateOpen(); after = c.openSockets() - late; return after == 0 })
 	close(c.stopSampler)
 	c.samplerDone.Wait()
 	if after > 0 {
 		atomic.AddInt64(&failures, 1)
 	}
-	leaked, fns, raw := waitNoGocqlGoroutines(label, wd())
+	if c.lateAdd > 0 && c.cur != nil {
+		c.cur.h.Close() // the harness closes what Session.Close left behind, so that the leak monitor sees the rest
+	}
+	leaked, fns, raw := waitNoGocqlGoroutines(label, wdEnd)
 	if leaked > 0 {
 		atomic.AddInt64(&failures, 1)
 		os.WriteFile(dumpPath("leak", label), []byte(raw), 0o644)
@@ -723,9 +878,95 @@ func runPipeLabelled(label string, cfg pipeCfg, fixed []string, choose chooser, 
 	// stalled=0 always here: a conducted action whose expected effect does not show up is a disagreement with the
 	// model's prediction (the `pipe` line ends in stall:…), not by itself a fact about the property; what the
 	// property says is checked by the monitors after the scenario was wound up.
-	obs := fmt.Sprintf("pipeobs kind=A %s maxconns=%d orphans=%d closedconns=%d afterclose=%d leaked=%d stack=%s stalled=0 sched=%s",
-		cfg, atomic.LoadInt64(&c.maxConns), c.orphans, atomic.LoadInt64(&c.closedConns), after, leaked, fns, sched)
+	obs := fmt.Sprintf("pipeobs kind=A %s maxconns=%d orphans=%d closedconns=%d hostconns=%d afterclose=%d leaked=%d stack=%s stalled=0 lateadd=%d lateopen=%d sched=%s",
+		cfg, atomic.LoadInt64(&c.maxConns), c.orphans, atomic.LoadInt64(&c.closedConns), c.hostConns, after, leaked, fns, c.lateAdd, late, sched)
 	return op, impl, obs
+}
+
+// labelledBoth: goroutines labelled sc=<label> that have a frame containing a AND a frame containing b.
+func labelledBoth(label, a, b string) int {
+	var buf bytes.Buffer
+	pprof.Lookup("goroutine").WriteTo(&buf, 1)
+	want := `"sc":"` + label + `"`
+	n := 0
+	for _, blk := range profileBlocks(buf.String()) {
+		lines := strings.Split(blk, "\n")
+		if len(lines) < 2 {
+			continue
+		}
+		cnt := 0
+		for _, ch := range lines[0] {
+			if ch < '0' || ch > '9' {
+				break
+			}
+			cnt = cnt*10 + int(ch-'0')
+		}
+		labelled, ha, hb := false, false, false
+		for _, l := range lines[1:] {
+			if strings.HasPrefix(l, "# labels:") {
+				labelled = strings.Contains(l, want)
+				continue
+			}
+			if strings.Contains(l, a) {
+				ha = true
+			}
+			if strings.Contains(l, b) {
+				hb = true
+			}
+		}
+		if labelled && ha && hb {
+			n += cnt
+		}
+	}
+	return n
+}
+
+// callerSignature: for every labelled goroutine that runs one of the addHost entry points, its innermost gocql
+// function (sorted, with multiplicities).
+func callerSignature(label string) string {
+	var buf bytes.Buffer
+	pprof.Lookup("goroutine").WriteTo(&buf, 1)
+	want := `"sc":"` + label + `"`
+	var sig []string
+	for _, blk := range profileBlocks(buf.String()) {
+		lines := strings.Split(blk, "\n")
+		if len(lines) < 2 {
+			continue
+		}
+		cnt := 0
+		for _, ch := range lines[0] {
+			if ch < '0' || ch > '9' {
+				break
+			}
+			cnt = cnt*10 + int(ch-'0')
+		}
+		labelled, caller := false, false
+		inner := ""
+		for _, l := range lines[1:] {
+			if strings.HasPrefix(l, "# labels:") {
+				labelled = strings.Contains(l, want)
+				continue
+			}
+			f := strings.Fields(l)
+			if len(f) < 3 {
+				continue
+			}
+			if strings.Contains(f[2], ".(*policyConnPool).addHost") {
+				caller = true
+			}
+			if inner == "" && strings.HasPrefix(f[2], gocqlPrefix) {
+				inner = f[2]
+				if i := strings.LastIndex(inner, "+0x"); i > 0 {
+					inner = inner[:i]
+				}
+			}
+		}
+		if labelled && caller {
+			sig = append(sig, fmt.Sprintf("%dx%s", cnt, inner))
+		}
+	}
+	sort.Strings(sig)
+	return strings.Join(sig, ",")
 }
 
 // ---- generation of conducted schedules
@@ -757,7 +998,56 @@ func genChooser(r *vh.Rng, cfg pipeCfg) chooser {
 	// one schedule in eight starts by making the pool short and idle (every connect in flight fails) and then
 	// lets several fill triggers arrive at once
 	shortBurst := r.Intn(8) == 0
-	return func(c *conductor, step int) string {
+	// addHost: one caller, or 2..4 concurrent callers (spin barrier / parked on the locks addHost takes)
+	upTok := func() string {
+		switch r.Intn(4) {
+		case 0:
+			return fmt.Sprintf("ups%d", 2+r.Intn(3))
+		case 1:
+			return fmt.Sprintf("upp%d", 2+r.Intn(3))
+		}
+		return "up"
+	}
+	// one schedule in five holds Session.Close between policyConnPool.Close() and s.cancel() and lets things happen there
+	window := r.Intn(5) == 0
+	winLeft := -1
+	inner := func(c *conductor, step int) string { return "" }
+	choose := func(c *conductor, step int) string {
+		if c.closing {
+			if winLeft < 0 {
+				winLeft = r.Intn(6)
+			}
+			if winLeft == 0 {
+				return "sfin"
+			}
+			winLeft--
+			fl := c.inflight()
+			x := r.Intn(100)
+			switch {
+			case x < 35:
+				return upTok()
+			case x < 70 && len(fl) > 0:
+				return fmt.Sprintf("ok%d", fl[r.Intn(len(fl))])
+			case x < 80 && len(fl) > 0:
+				return []string{"failE", "failR"}[r.Intn(2)] + strconv.Itoa(fl[r.Intn(len(fl))])
+			case x < 90 && c.cur != nil:
+				return []string{"pick", "down", "burst"}[r.Intn(3)]
+			}
+			if len(fl) > 0 {
+				return fmt.Sprintf("ok%d", fl[0])
+			}
+			return upTok()
+		}
+		a := inner(c, step)
+		if a == "up" {
+			a = upTok()
+		}
+		if a == "sclose" && window {
+			a = "shold"
+		}
+		return a
+	}
+	inner = func(c *conductor, step int) string {
 		if len(queue) > 0 {
 			a := queue[0]
 			queue = queue[1:]
@@ -862,6 +1152,7 @@ func genChooser(r *vh.Rng, cfg pipeCfg) chooser {
 		}
 		return "up"
 	}
+	return choose
 }
 
 func genPipeCfg(r *vh.Rng) pipeCfg {
@@ -900,8 +1191,11 @@ func parsePipeCfg(ws []string) (pipeCfg, bool) {
 }
 
 // burstPicks: n goroutines (not more than half of the processors, so that all of them really run at the same time)
-// spin on one flag and call Pick the moment it flips: several `go pool.fill()` start within nanoseconds.
-func burstPicks(h *gocql.VerifHostPool) {
+// spin on one flag and fire the moment it flips: several fill() calls of different origins start within nanoseconds —
+// Pick (`go pool.fill()`), the reconnect ticker's policyConnPool.addHost and an UP event's startPoolFill (both find
+// the registered pool and call pool.fill() themselves; the one whose fill dials the first connection of an empty pool
+// synchronously returns only when that dial is answered, so the addHost callers are not waited for here).
+func burstPicks(c *conductor, h *gocql.VerifHostPool) {
 	n := runtime.GOMAXPROCS(0) / 2
 	if n > 8 {
 		n = 8
@@ -913,16 +1207,26 @@ func burstPicks(h *gocql.VerifHostPool) {
 	var flag int32
 	for i := 0; i < n; i++ {
 		ready.Add(1)
-		done.Add(1)
+		i := i
+		if i%4 != 1 && i%4 != 3 {
+			done.Add(1)
+		}
 		go func() {
-			defer done.Done()
 			ready.Done()
 			for k := 0; atomic.LoadInt32(&flag) == 0; k++ {
 				if k&0xfffff == 0xfffff {
 					runtime.Gosched()
 				}
 			}
-			h.Pick()
+			switch i % 4 {
+			case 1:
+				gocql.VerifPoolAddHost(c.s, c.host)
+			case 3:
+				gocql.VerifStartPoolFill(c.s, c.host)
+			default:
+				h.Pick()
+				done.Done()
+			}
 		}()
 	}
 	ready.Wait()
